@@ -1,5 +1,7 @@
 import FrappyDrive.C04
+import FrappyDrive.C03
 import FrappyModel.Spec.C06
+import FrappyModel.Node.DescribeDT
 import FrappyModel.Generated.C06
 /- line-protocol glue for C06 (node parser, oracle tables and observation parsers are those of C04) -/
 namespace Frappy.Drive.C06
@@ -117,9 +119,45 @@ def aim (r : Request JJ VV) : Option (ProbeKind × String × String) :=
   | .do_ spec _ => (targetDo spec).map (fun ma => (.do_, ma.1, ma.2))
   | .assign .. => none
 
+/-- the outcome class of a datatype answer (`"ok"`, `"RangeError"`, `"WrongTypeError"`, or the Python class) -/
+def resClass : Frappy.Res Float → String
+  | .ok _ => "ok"
+  | .error .range => "RangeError"
+  | .error .wrongType => "WrongTypeError"
+  | .error (.other c) => c
+
+/-- one parameter of the `datatypes` verb: the datatype of the class, the limits the configuration sets, the datatype
+object of the instance, the described datainfo and payloads — everything derived by the model (`Node/DescribeDT`) -/
+def datatypeCase (p : Json) : R Json := do
+  let D := Frappy.Drive.C03.consts
+  let inst ← Frappy.Drive.C03.dinfoOfJson (← fld p "inst")
+  -- class + configuration -> instance datatype
+  let derived ← match p.getObjVal? "cls" with
+    | .ok .null => pure Json.null
+    | .error _ => pure Json.null
+    | .ok c => do
+      let cls ← Frappy.Drive.C03.dinfoOfJson c
+      let cfg ← (← fldArr p "cfg").mapM (fun row => do
+        match ← arr row with
+        | [.str "min", v] => return (LimitKey.min, ← pvalOfJson v)
+        | [.str "max", v] => return (LimitKey.max, ← pvalOfJson v)
+        | _ => throw "bad limit entry")
+      pure (Frappy.Drive.C03.exToJson Frappy.Drive.C03.dinfoToJson (instanceDatatype D cls cfg))
+  -- instance datatype -> described datainfo
+  let datainfo := Frappy.Drive.C03.exToJson jvalToJson (Frappy.Datatypes.exportDatatype D inst)
+  -- payloads: the node's own datatype, and the client datatype rebuilt from the DESCRIBED datainfo
+  let described ← jvalOfJson (← fld p "described")
+  let probes ← (← fldArr p "probes").mapM (fun w => do
+    let j ← jvalOfJson w
+    return jarr [Json.str (resClass (Frappy.Datatypes.acceptWire inst.erase j none)), Json.str (resClass (clientAccept D described j none))])
+  return Json.mkObj [("inst", derived), ("datainfo", datainfo), ("probes", jarr probes),
+                     ("exportable", .bool inst.exportableB), ("wf", .bool inst.erase.wfB)]
+
 def handle (j : Json) : R Json := do
   let k ← fldStr j "k"
   match k with
+  | "datatypes" =>
+    return Json.mkObj [("params", jarr (← (← fldArr j "params").mapM datatypeCase))]
   | "describe" =>
     let t ← parseTables (← fld j "oracle")
     let (n, inits) ← parseNodeInit t (← fld j "node")
@@ -163,6 +201,17 @@ def handle (j : Json) : R Json := do
             return Json.mkObj [("bad", jarr [Json.str "class-props", jnat 0, Json.str m])]
     let env := mkEnv t .none
     let mut i := 0
+    -- the datatype objects of the parameters (trees of C01-C03), where the harness could read them: a scaled limit that
+    -- is not a grid value (`exportableB` false) marks the recorded finding `scaled-limit-off-grid`
+    let trees ← match j.getObjVal? "trees" with
+      | .error _ => pure []
+      | .ok a => (← arr a).mapM (fun x => do
+          return (s!"{← fldStr x "m"}:{← fldStr x "a"}", ← Frappy.Drive.C03.dinfoOfJson (← fld x "inst")))
+    let offGrid (ma : String) : Bool := match trees.find? (·.1 == ma) with
+      | some (_, tr) => !tr.exportableB
+      | none => false
+    -- every failing item is reported (one finding must not hide another kind of failure in the same node)
+    let mut bads : List Json := []
     -- requests: report against behaviour
     for s in ← fldArr j "steps" do
       let req ← parseReq (← fld s "req")
@@ -179,20 +228,26 @@ def handle (j : Json) : R Json := do
         let hasData := match req with
           | .do_ _ d => d.isSome
           | _ => false
+        -- the verdict of the client datatype rebuilt from the described datainfo (do: of the argument; change: of the
+        -- parameter); a change for which the harness has no verdict (not aimed at a described parameter) demands nothing
         let client := match s.getObjVal? "client" with
           | .ok (.bool b) => b
-          | _ => false
+          | _ => kind == .change
         let pr : Probe JJ VV := ⟨kind, m, a, ← parseReply (← fld o "reply"), ← (← fldArr o "calls").mapM parseCall,
           false, allowed, hasData, client⟩
         if !(probeOKB r1 pr) then
           let what := match findDesc r1 m a with
             | none => "undescribed-reachable"
             | some _ => match kind with
-              | .change => "flag-not-honoured"
+              | .change =>
+                -- which clause failed: the flag, or the described datainfo (a payload it excludes was taken)
+                if probeOKB r1 { pr with clientAccepts := true } then
+                  cond (offGrid s!"{m}:{a}") "datainfo-not-honoured:scaled-limit-off-grid" "datainfo-not-honoured"
+                else "flag-not-honoured"
               | .read => "constant-not-read"
               | .do_ => "command-datainfo-not-honoured"
               | _ => "other"
-          return Json.mkObj [("bad", jarr [Json.str what, jnat i, Json.str s!"{m}:{a}"])]
+          bads := bads ++ [jarr [Json.str what, jnat i, Json.str s!"{m}:{a}"]]
       i := i + 1
     -- activate requests
     i := 0
@@ -201,22 +256,24 @@ def handle (j : Json) : R Json := do
       let a ← fldStr s "a"
       let pr : Probe JJ VV := ⟨.activate, m, a, ← parseReply (← fld s "reply"), [], ← fldBool s "subsChanged", false, false, false⟩
       if !(probeOKB r1 pr) then
-        return Json.mkObj [("bad", jarr [Json.str "undescribed-subscribed", jnat i, Json.str s!"{m}:{a}"])]
+        bads := bads ++ [jarr [Json.str "undescribed-subscribed", jnat i, Json.str s!"{m}:{a}"]]
       i := i + 1
     -- described datainfo against the runtime datatype; emitted values against the described datainfo
     i := 0
     for s in ← fldArr j "dichecks" do
       let c : DatainfoCheck := ⟨← fldStr s "m", ← fldStr s "a", ← fldBool s "client", ← fldBool s "node"⟩
       if !(datainfoAgreeB c) then
-        return Json.mkObj [("bad", jarr [Json.str "datainfo-disagrees", jnat i, Json.str s!"{c.m}:{c.a}"])]
+        let what := cond (offGrid s!"{c.m}:{c.a}")
+          "datainfo-disagrees:scaled-limit-off-grid" "datainfo-disagrees"
+        bads := bads ++ [jarr [Json.str what, jnat i, Json.str s!"{c.m}:{c.a}"]]
       i := i + 1
     i := 0
     for s in ← fldArr j "imports" do
       if !(← fldBool s "ok") then
-        return Json.mkObj [("bad", jarr [Json.str "emitted-not-importable", jnat i,
-          Json.str s!"{← fldStr s "m"}:{← fldStr s "a"}"])]
+        bads := bads ++ [jarr [Json.str "emitted-not-importable", jnat i,
+          Json.str s!"{← fldStr s "m"}:{← fldStr s "a"}"]]
       i := i + 1
-    return Json.mkObj [("bad", Json.null)]
+    return Json.mkObj [("bad", bads.head?.getD Json.null), ("bads", jarr (bads.take 200))]
   | _ => throw s!"C06: unknown verb {k}"
 
 end Frappy.Drive.C06
